@@ -35,7 +35,7 @@ use vcore::{Ctx, Failure, Obs, Spec};
 const SPEC: Spec = Spec {
     prop: "C01",
     level: "exploration",
-    rule: "histories of API calls (create/drop publisher and subscriber, loan, write, send, send_copy, drop loan, receive, drop sample, has_samples, update_connections) on 1..3 publishers and 1..3 subscribers over a QoS record (buffer 1..4, history 0..3, borrow 1..3, overflow on/off, per-port buffer/history request/max loans/backpressure handling, u64 and [u8] payloads), executed against the real ports and a reference model with the lazy connection rule; bounded-exhaustive part = every no-op-free sequence of length L over a reduced alphabet (send_copy, receive on first/last subscriber, drop first/last sample, create subscriber, drop subscriber, publisher update) for a 22-point QoS grid; random part = proptest histories on local (many) and ipc (fewer). Non-trivial = at least one receive returned a sample AND (an overflow eviction happened OR a late joiner got history OR a port was dropped with undelivered data OR one subscriber received from >= 2 publishers). Distinct = hash of (service variant part, QoS record, op sequence).",
+    rule: "histories of API calls (create/drop publisher and subscriber, loan, write, send, send_copy, drop loan, receive, drop sample, has_samples, update_connections) on 1..3 publishers and 1..3 subscribers over a QoS record (buffer 1..4, history 0..3, borrow 1..3, overflow on/off, per-port buffer/history request/max loans/backpressure handling, u64 and [u8] payloads), executed against the real ports and a reference model with the lazy connection rule; bounded-exhaustive part = every no-op-free sequence of length L over a reduced alphabet (send_copy, receive on first/last subscriber, drop first/last sample, create subscriber with default / zero history request, drop subscriber, publisher update) for a 22-point QoS grid; random part = proptest histories on local (many) and ipc (fewer). Non-trivial = at least one receive returned a sample AND (an overflow eviction happened OR a late joiner got history OR a port was dropped with undelivered data OR one subscriber received from >= 2 publishers). Distinct = hash of (service variant part, QoS record, op sequence).",
     assumptions: &[
         "single-threaded histories; concurrent send/receive on one connection is C03's domain",
         "RetryUntilDelivered is generated only together with a backpressure handler that gives up after k <= 2 retries, so that no call can block",
@@ -83,6 +83,11 @@ fn exhaustive(ctx: &mut Ctx) {
     let (pro, alpha) = (prologue.clone(), alphabet.clone());
     let cases = grid.into_iter().flat_map(move |svc| {
         let pro2 = pro.clone();
+        let mut alpha = alpha.clone();
+        if svc.hist > 0 {
+            // a late joiner that asks for less than the history holds
+            alpha.push(Op::CreateSub(SubCfg { buffer: None, hist_req: Some(0) }));
+        }
         enumerate_sequences(&svc, &pro, &alpha, len).map(move |seq| {
             let mut ops = pro2.clone();
             ops.extend(seq);
@@ -91,7 +96,7 @@ fn exhaustive(ctx: &mut Ctx) {
     });
     ctx.enumerate(
         "exhaustive.local",
-        &format!("all no-op-free op sequences of length {len} (every prefix checked) over an 8-op alphabet after creating one publisher, {points}-point QoS grid (buffer 1..2 x history 0..2 x borrow 1..2 x overflow), local service"),
+        &format!("all no-op-free op sequences of length {len} (every prefix checked) over an 8-op alphabet (9 with history: a subscriber requesting no history) after creating one publisher, {points}-point QoS grid (buffer 1..2 x history 0..2 x borrow 1..2 x overflow), local service"),
         cases,
         |c, obs| run(Variant::Local, c, obs),
     );
